@@ -762,6 +762,7 @@ func Run(tier string, seed int64, outDir string) *common.Meta {
 	evals, distinct, variants, expectChecked, exemptSkipped := 0, 0, 0, 0, 0
 	perTransform := map[string]int{}
 	typeErrs := map[string]int{}
+	lw := newLaws(infos)
 	for round := 0; round < rounds; round++ {
 		for ti, tr := range transforms {
 			if round > 0 && (tr.name == "identity" || tr.name == "append-decls" || tr.name == "reverse-funcs") {
@@ -810,11 +811,22 @@ func Run(tier string, seed int64, outDir string) *common.Meta {
 					}
 				}
 			}
+			lawItems := map[string]*lawItem{}
+			var lawOrder []*lawItem
 			runAll(pkgs, fset, func(f *fw.File, ci int, o fw.Outcome) {
 				fb := bases[f.ID()]
 				em := ems[f.ID()]
 				if fb == nil || em == nil || !okPkg[f.Pkg.Name] {
 					return
+				}
+				if v, ok := lw.byIdx[ci]; ok {
+					it := lawItems[f.ID()]
+					if it == nil {
+						it = &lawItem{orig: fb.f, tf: f, em: em, real: map[string]fw.Outcome{}}
+						lawItems[f.ID()] = it
+						lawOrder = append(lawOrder, it)
+					}
+					it.real[v.Name] = o
 				}
 				info := infos[ci]
 				if ci == 0 {
@@ -906,6 +918,12 @@ func Run(tier string, seed int64, outDir string) *common.Meta {
 				}
 			})
 			_ = ti
+			// model execution on the converted transformed files + the laws in evaluated form (model.go)
+			if round == 0 {
+				lw.write(meta, outDir, tr.name, lawOrder)
+			} else {
+				lw.write(meta, outDir, fmt.Sprintf("%s-r%d", tr.name, round), lawOrder)
+			}
 			if tr.name == "dangerous-docs" || (tier == "thorough" && tr.name != "identity") {
 				cliLevel(meta, tr.name, mod, base[:nS1], ems, cliBase)
 			}
